@@ -1,3 +1,4 @@
+(* generated from AR_election.v for the PROPOSED system DE.AbstractRaft (only the example state x3 differs) *)
 (* AR_election — library of list / merge_from facts, basic ghost-history invariants of AbstractRaft,
    election safety (T1), the quorum form of election safety, and a non-vacuity example. *)
 From Coq Require Import NArith List Bool Lia ZifyBool ZifyN PeanoNat.
@@ -379,7 +380,7 @@ Definition x3 : astate :=  (* SBecomeLeader 1 *)
      g_votes := g_votes x2; g_cand := g_cand x2;
      g_leaders := (1, a_cur x2 1) :: g_leaders x2;
      g_llog := upd (g_llog x2) (a_cur x2 1) (a_log x2 1);
-     g_lcommit := g_lcommit x2; g_acks := g_acks x2 |}.
+     g_lcommit := upd (g_lcommit x2) (a_cur x2 1) (a_commit x2 1); g_acks := g_acks x2 |}.
 Definition x4 : astate :=  (* SLeaderAppend 1 *)
   {| a_cur := a_cur x3; a_vote := a_vote x3;
      a_log := upd (a_log x3) 1 (a_log x3 1 ++ [{| a_term := a_cur x3 1; a_pl := 7 |}]);
